@@ -6,6 +6,8 @@ import copy
 import math
 import os
 
+import numpy as np
+
 from vf.core import HarnessError
 from vf.gen import geos
 from vf.repo import R
@@ -60,6 +62,25 @@ def rename_some_layers(rng, geo, desc, key, p=0.5):
 
 
 def make_pair(rng, k):
+    S, T, desc = make_pair_plain(rng, k)
+    if rng.random() < 0.3:
+        # columns whose centre is given in the geometry file rather than left at the centroid (a well position,
+        # a hand-placed centre): the mapping is by centre, whatever the polygon is
+        for key, geo in (('centres_s', S), ('centres_t', T)):
+            if key == 'centres_t' and rng.random() < 0.5:
+                continue
+            moved = {}
+            for col in rng.sample(geo.columnlist, rng.randint(1, geo.num_columns)):
+                bb = col.bounding_box
+                c = np.array(col.centroid) + np.array([rng.uniform(-0.42, 0.42) * (bb[1][0] - bb[0][0]), rng.uniform(-0.42, 0.42) * (bb[1][1] - bb[0][1])])
+                col.centre = c
+                col.centre_specified = 1
+                moved[col.name] = [float(c[0]), float(c[1])]
+            desc[key] = moved
+    return S, T, desc
+
+
+def make_pair_plain(rng, k):
     mg = R.mulgrids
     satm, tatm = k % 3, (k // 3) % 3
     conv_s = rng.randint(0, 2)
